@@ -20,12 +20,16 @@ structure Expected where
   texts : List PyStr
 deriving Repr, DecidableEq
 
+/-- a pie sector is a `path` with a `style` attribute, an edge a `path` with a `stroke` attribute -/
+def hasStyle (as : List Attr) : Bool := (attrVal? as py!"style").isSome
+def hasStroke (as : List Attr) : Bool := (attrVal? as py!"stroke").isSome
+
 /-- what a parsed document contains -/
 def observed (ps : List Piece) : Expected :=
   let body := dropDefs ps 0
   { circles := countElems py!"circle" (fun _ => true) body
-    sectors := countElems py!"path" (fun as => (attrVal? as py!"style").isSome) body
-    edgePaths := countElems py!"path" (fun as => (attrVal? as py!"stroke").isSome) body
+    sectors := countElems py!"path" hasStyle body
+    edgePaths := countElems py!"path" hasStroke body
     texts := (textContents body).map plainOf }
 
 /-- is node `i` drawn as a pie chart (else as one circle)? -/
